@@ -87,7 +87,10 @@ func genC14(t *rapid.T) *world.Scenario {
 	for i := 0; i < n; i++ {
 		lbl := fmt.Sprintf("o%d", i)
 		op := world.StoreOpSpec{Key: pool[rapid.IntRange(0, len(pool)-1).Draw(t, lbl+"-key")]}
-		switch gen.Weighted(t, lbl+"-op", 30, 22, 14, 10, 6, 4, 4, 4, 3, 3) {
+		switch gen.Weighted(t, lbl+"-op", 30, 22, 14, 10, 6, 4, 4, 4, 3, 3, 2) {
+		case 10:
+			op.Op = "plant-tmp" // what a writer killed in mid-write leaves behind
+			op.Key = nil
 		case 0:
 			op.Op = "set"
 		case 1:
@@ -221,6 +224,22 @@ func execC14(t *testing.T, sc *world.Scenario) (*oracle.Result, string) {
 		op := sc.Store.Ops[i]
 		r.Fail("C14", kind, i, "op #%d %s key(len %d)=%q on %s: %s", i, op.Op, len(op.Key), trunc(op.Key), b.kind, fmt.Sprintf(format, a...))
 	}
+	// results of earlier Gets stay what they were, whatever the backend does afterwards
+	type heldResult struct {
+		op        int
+		got, want []byte
+	}
+	var held []heldResult
+	checkHeld := func(i int) bool {
+		for _, h := range held {
+			if !bytes.Equal(h.got, h.want) {
+				fail(i, "earlier-get-result-changed", "the %d bytes returned by the Get of op #%d changed after later operations (first difference at %d)", len(h.want), h.op, firstDiffBytes(h.got, h.want))
+				return false
+			}
+		}
+		return true
+	}
+	planted := 0
 	sawOverwriteOrDelete, prefixPair := false, false
 	keysSeen := map[string]bool{}
 	for i, op := range sc.Store.Ops {
@@ -279,6 +298,8 @@ func execC14(t *testing.T, sc *world.Scenario) (*oracle.Result, string) {
 				for j := range got {
 					got[j] ^= 0x5a
 				}
+			} else if err == nil && ok && len(held) < 16 {
+				held = append(held, heldResult{op: i, got: got, want: append([]byte(nil), got...)})
 			}
 		case "delete":
 			_, ok := model[key]
@@ -314,6 +335,12 @@ func execC14(t *testing.T, sc *world.Scenario) (*oracle.Result, string) {
 			if d := diffKeySets(got, model, key, false); d != "" {
 				fail(i, "keys-wrong", "Keys(%q): %s", trunc(op.Key), d)
 			}
+		case "plant-tmp":
+			if b.kind == "mem" {
+				continue
+			}
+			planted++
+			_ = os.WriteFile(filepath.Join(b.dir, "app", fmt.Sprintf(".tmp-leftover%d", planted)), []byte("partial write"), 0o644)
 		case "reopen":
 			if err := b.open(); err != nil {
 				fail(i, "reopen-failed", "%v", err)
@@ -367,6 +394,9 @@ func execC14(t *testing.T, sc *world.Scenario) (*oracle.Result, string) {
 			}
 		}
 		if len(r.Violations) > 0 {
+			break
+		}
+		if !checkHeld(i) {
 			break
 		}
 	}
